@@ -137,7 +137,7 @@ pub fn run(ctx: &Ctx) -> i32 {
             for (clause, path) in errs { if clause.starts_with("digest") {
                 acc.viol(format!("C01|{clause}|sequence"), format!("cached digest differs from the recomputed one at {path}"), format!("c/{}", desc()), json!({"envelope": hex::encode(e.to_cbor_data())})) } }
         },
-        &|_, _, _, _, _| {});
+        &|_, _, _, _, _| {}, None);
     let mut bacc = bacc; bacc.outcomes.clear();
     acc = acc.merge(bacc);
     let evals = acc.get("envelopes_compared") + st.states;
